@@ -596,7 +596,7 @@ def run(ctx):
 
 def replay(ctx, path):
     import replaylib
-    r = replaylib.load("C04", path)
+    r = replaylib.load(ctx, path)
     if "op" not in r:
         return replaylib.obligations("C04", run, r, path)
     exe = build_harness(ctx, "asan")
